@@ -488,6 +488,105 @@ func runC06(c *core.Ctx) {
 	c.Clause("D5", func() { runTimePredicates(c) })
 
 	c.Clause("D6", func() { runOwnerRoundRobin(c) })
+
+	c.Clause("D7", func() {
+		// The snapshot codec of the metadata agrees with itself: every `x.F = pb.GetG()` of an unmarshal method and
+		// every `F: proto.T(x.G)` of a marshal method in services/meta has F == G. A counter or id restored from
+		// another field makes a replica that was restored from a snapshot (or restarted) hand out ids that are
+		// already in use and diverge from the replicas that applied the log.
+		exempt := map[string]string{}
+		n := 0
+		for _, g := range c.P.FuncsIn(metap) {
+			if g.Decl == nil || g.Decl.Recv == nil || g.Body == nil || g.Lit != nil {
+				continue
+			}
+			info := g.Info()
+			switch g.Decl.Name.Name {
+			case "unmarshal":
+				ast.Inspect(g.Body, func(nd ast.Node) bool {
+					as, ok := nd.(*ast.AssignStmt)
+					if !ok || len(as.Lhs) != 1 || len(as.Rhs) != 1 {
+						return true
+					}
+					lhs, ok := as.Lhs[0].(*ast.SelectorExpr)
+					if !ok {
+						return true
+					}
+					if _, isField := info.ObjectOf(lhs.Sel).(*types.Var); !isField {
+						return true
+					}
+					rhs := ast.Unparen(as.Rhs[0])
+					if ce, ok := rhs.(*ast.CallExpr); ok {
+						if b, ok := core.Callee(info, ce).(*types.Builtin); ok && b.Name() == "make" {
+							return true // allocation sized by the snapshot's list (deprecated-format migration), elements follow
+						}
+					}
+					// unwrap one conversion or helper call around the getter
+					getter := ""
+					ast.Inspect(rhs, func(m ast.Node) bool {
+						if ce, ok := m.(*ast.CallExpr); ok && len(ce.Args) == 0 {
+							if se, ok := ce.Fun.(*ast.SelectorExpr); ok && strings.HasPrefix(se.Sel.Name, "Get") && getter == "" {
+								if fn, ok := info.ObjectOf(se.Sel).(*types.Func); ok && fn.Pkg() != nil && strings.HasSuffix(fn.Pkg().Path(), "services/meta/internal") {
+									getter = strings.TrimPrefix(se.Sel.Name, "Get")
+								}
+							}
+						}
+						return true
+					})
+					if getter == "" {
+						return true
+					}
+					n++
+					key := g.Name + "/" + lhs.Sel.Name
+					_, ex := exempt[key]
+					c.Check("snapshot-codec-fields-agree", key, c.P.Pos(as.Pos()), ex || strings.EqualFold(getter, lhs.Sel.Name),
+						"field "+lhs.Sel.Name+" is restored from the snapshot's "+getter+": a replica restored from a snapshot differs from the state that was saved")
+					return true
+				})
+			case "marshal":
+				ast.Inspect(g.Body, func(nd ast.Node) bool {
+					kv, ok := nd.(*ast.KeyValueExpr)
+					if !ok {
+						return true
+					}
+					kid, ok := kv.Key.(*ast.Ident)
+					if !ok {
+						return true
+					}
+					ce, ok := ast.Unparen(kv.Value).(*ast.CallExpr)
+					if !ok || len(ce.Args) != 1 {
+						return true
+					}
+					fn, ok := core.Callee(info, ce).(*types.Func)
+					if !ok || fn.Pkg() == nil || !strings.HasSuffix(fn.Pkg().Path(), "protobuf/proto") {
+						return true
+					}
+					se, ok := ast.Unparen(ce.Args[0]).(*ast.SelectorExpr)
+					if !ok {
+						// one conversion/method around the field, e.g. proto.Int64(x.F.UnixNano()), proto.Int64(int64(x.F))
+						ast.Inspect(ce.Args[0], func(m ast.Node) bool {
+							if s2, ok := m.(*ast.SelectorExpr); ok && se == nil {
+								if v, ok := info.ObjectOf(s2.Sel).(*types.Var); ok && v.IsField() {
+									se = s2
+								}
+							}
+							return true
+						})
+					}
+					if se == nil {
+						return true
+					}
+					n++
+					key := g.Name + "/" + kid.Name
+					_, ex := exempt[key]
+					c.Check("snapshot-codec-fields-agree", key, c.P.Pos(kv.Pos()), ex || strings.EqualFold(kid.Name, se.Sel.Name),
+						"snapshot field "+kid.Name+" is written from "+se.Sel.Name+": a replica restored from the snapshot differs from the state that was saved")
+					return true
+				})
+			}
+		}
+		c.Floor("field transfers in the metadata snapshot codec", n, 40)
+	})
 }
 
 // runTimePredicates: exhaustive truth tables of the shard-group time predicates (shared by C06, C08, C17).
